@@ -173,7 +173,7 @@ func checkMatrix(bm *gozxing.BitMatrix, m *mmodel, r *fw.Rand) string {
 	}
 	var reuse *gozxing.BitArray
 	if r.Bool() {
-		reuse = gozxing.NewBitArray(m.w + r.Intn(40))
+		reuse = gozxing.NewBitArray(m.w + r.Intn(40) + 32*r.Intn(3))
 		for i := 0; i < reuse.GetSize(); i++ {
 			if r.Bool() {
 				reuse.Set(i)
@@ -202,6 +202,12 @@ func checkMatrix(bm *gozxing.BitMatrix, m *mmodel, r *fw.Rand) string {
 		}
 		if row.GetSize() == m.w && nxt != m.w {
 			return fmt.Sprintf("GetRow(%d).GetNextSet after last set bit: got %d, model %d", y, nxt, m.w)
+		}
+		// a caller-supplied row that is wider than the matrix comes back cleared beyond the width
+		for x := m.w; x < row.GetSize(); x++ {
+			if row.Get(x) {
+				return fmt.Sprintf("GetRow(%d) into a reused row of size %d: bit %d beyond the matrix width %d is set (stale content of the buffer)", y, row.GetSize(), x, m.w)
+			}
 		}
 	}
 	if got, want := bm.GetEnclosingRectangle(), m.enclosing(); !intsEq(got, want) {
@@ -663,8 +669,11 @@ func c16Array(r *fw.Rec, n, ctor int) {
 			trace = append(trace, "Reverse")
 		case 11:
 			if n > 0 {
-				// ToBytes from a byte-aligned offset in the middle
+				// ToBytes from any bit offset (byte-aligned or not) in the middle
 				off := 8 * rng.Intn((n+7)/8)
+				if rng.Bool() {
+					off = rng.Intn(n)
+				}
 				nb := rng.Intn((n-off)/8 + 1)
 				buf := make([]byte, nb)
 				a.ToBytes(off, buf, 0, nb)
@@ -677,7 +686,7 @@ func c16Array(r *fw.Rec, n, ctor int) {
 					}
 					if buf[i] != want {
 						trace = append(trace, fmt.Sprintf("ToBytes(%d,%d)", off, nb))
-						fail(fmt.Sprintf("ToBytes byte %d = %#02x, model %#02x", i, buf[i], want))
+						fail(fmt.Sprintf("ToBytes from bit offset %d: byte %d = %#02x, model %#02x", off, i, buf[i], want))
 						return
 					}
 				}
